@@ -145,6 +145,13 @@ func (e *c08Env) scenarioContention(rng *rand.Rand, timed bool) {
 	}
 	wg.Wait()
 	e.ctx.rep.Eval(1)
+	if len(tenures) >= 2 && !timed {
+		n := len(tenures)
+		if n > 5 {
+			n = 5
+		}
+		e.ctx.rep.Sample(map[string]interface{}{"scenario": "contention", "key": key, "competitors": len(tenures), "first_tenures": fmt.Sprint(tenures[:n])})
+	}
 	if len(tenures) >= 2 {
 		e.ctx.rep.Distinct(fmt.Sprintf("contention|timed=%v|n=%d|tenures=%d", timed, n, len(tenures)))
 	}
